@@ -296,7 +296,13 @@ def finalize(check, violations, viol_count, coverage, t0, log=print):
         rc = 1
     coverage["violation_signatures"] = {s: n for s, n in sorted(viol_count.items())}
     coverage["known_findings_seen"] = [v["signature"] for v, _ in listed]
-    evidence.write(check.prop, check.tier, check.seed, check.level, coverage, time.time() - t0, len(new), check.assumptions)
+    try:
+        evidence.write(check.prop, check.tier, check.seed, check.level, coverage, time.time() - t0, len(new), check.assumptions)
+    except common.ToolingError as e:
+        if not new:
+            raise
+        # violations were found: they are reported even if this (abnormal) run cannot produce a valid evidence file
+        log(f"    note: {e}")
     for ln in lines:
         print(ln, flush=True)
     return rc
